@@ -314,18 +314,23 @@ def judge(ctx, br, res, stats):
                                header=os.path.join(br.dir, "prom" if opt["promiscuous"] else "pub", "lib%d.h" % br.n), stat_key=key),
                           classes=cls)
             break        # later steps of this behaviour depend on this one
-    # what the database says about the variants of each function that was used
+    # WrapC!Required: the database lists exactly the wrapper variants the spec demands for each function
+    # that was used (one per omitted default; `this` first; optional flags on the defaulted parameters)
+    req = {}
+    for x in br.beh:
+        for gid, vs in x["req"].items():
+            req.setdefault(int(gid), set()).update((v[0], v[1], v[2], tuple(v[3])) for v in vs)
     for chk in res["dbchecks"]:
         fn = fns[chk["gid"]]
         s = fn.sig
-        if W.cpp_name_group(s) is not None or s["name"] or s["fk"] in ("getter", "setter"):
-            continue
-        off = 1 if W.has_this(s) else 0
-        want = sorted(off + len(s["ps"]) - k for k in range(s["nd"] + 1))
-        got = sorted(len(v["params"]) for v in chk["variants"])
+        if W.cpp_name_group(s) is not None or s["name"] or s["fk"] in ("getter", "setter") or chk["gid"] not in req:
+            continue        # names shared by several signatures are judged variant by variant when they are called
+        want = sorted((np, this, (False,) * (1 if this else 0) + opt) for k, np, this, opt in req[chk["gid"]])
+        got = sorted((len(v["params"]), bool(v["this"] and v["this"][0]), tuple(v["optional"])) for v in chk["variants"])
         if got != want:
-            ctx.violation("[%s] %s: the database lists wrapper variants with %r parameters, expected one per omitted default: %r"
-                          % (tag, W.declaration(fn), got, want), dict(optset=tag, dbcheck=chk, stat_key=tag + " variants"))
+            ctx.violation("[%s] %s: the database lists wrapper variants (parameters, this first, optional flags) %r, the "
+                          "library needs %r" % (tag, W.declaration(fn), got, want),
+                          dict(optset=tag, dbcheck=chk, required=want, stat_key=tag + " variants"))
     return n
 
 
@@ -336,7 +341,7 @@ def run_check(ctx):
     # ---- TLC: exhaustive single calls + simulated sequences (concurrently) -----------------
     dump1 = os.path.join(work, "single.ndjson")
     dump2 = os.path.join(work, "seq.ndjson")
-    nseq = 200 if tier == "quick" else 2000
+    nseq = 200 if tier == "quick" else 5000
     workers = 3 if tier == "quick" else 6
     out = {}
 
@@ -357,8 +362,11 @@ def run_check(ctx):
         if res.verdict == "invariant":
             raise MachineryError("WrapC: model invariant %s violated\n%s" % (res.violated, res.out[-2500:]))
         tlc.must_ok(res)
-    single = tlc.read_dump(dump1)
-    seqs = tlc.read_dump(dump2)
+    try:
+        single = tlc.read_dump(dump1)
+        seqs = tlc.read_dump(dump2)
+    except ValueError as e:
+        raise MachineryError("a TLC dump is damaged (records of concurrent workers interleaved?): %s" % e)
     keyf = lambda r: json.dumps(r, sort_keys=True)
     single.sort(key=keyf)
     seqs = sorted({keyf(r): r for r in seqs}.values(), key=keyf)[:nseq]
@@ -402,6 +410,7 @@ def run_check(ctx):
 
     # ---- evidence -------------------------------------------------------------------------------
     nsig = len(set(W.sig_key(s) for r in recs for s in r["lib"]))
+    novl = sum(1 for r in seqs if len(set((s["cls"], s["name"]) for s in r["lib"] if s["name"])) < sum(1 for s in r["lib"] if s["name"]))
     calls = set()
     for x in beh:
         for st in x["steps"]:
@@ -417,12 +426,17 @@ def run_check(ctx):
                        "the full product) of boundary values x the objects it can be called on, exhaustively; sequences: TLC "
                        "-simulate, every wrapper variant called >= 2 times on different objects / arguments; distinct = distinct "
                        "(function, omitted defaults, this, arguments) calls; all are non-trivial (each executes a wrapper)")
-    ctx.notes.update(signatures=nsig, single_call_behaviours=len(single), sequences=len(seqs), batches=len(batches),
+    ctx.notes.update(signatures=nsig, single_call_behaviours=len(single), sequences=len(seqs), sequences_with_overload_sets=novl,
+                     batches=len(batches),
                      families=len(P.fams), generated_functions=sum(len(b.fns) for b in batches), option_sets=per_opt,
                      finding_class_failed_of_members=stats["prec"])
-    ctx.notes["python_true_names"] = ("-python -true-names is not replayed: the extension module registers each wrapper under the "
-                                      "cleaned C++ name, which is not recorded in the database (the database names the static "
-                                      "_inP... function), and overloads / default variants collide under one name")
+    ctx.notes["python_true_names"] = ("-python -true-names is not replayed: the module registers each (static) wrapper under "
+                                      "clean_identifier(C++ name), which the database does not record (it names the _inP... "
+                                      "function); every constructor collides with the implicit copy constructor under one name, "
+                                      "so no object can be constructed reliably.  -c -true-names needs -fptrs (it excludes "
+                                      "-fnames): the static wrappers are reached through _in_fptrs[database wrapper index - 1]")
+    ctx.notes["nodb"] = ("every option set adds -nodb (the generated file then needs no dtool headers); the database is still "
+                         "written with -od and is what drives every call")
     ctx.notes["destructors"] = ("neither back-end emits a destructor wrapper (InterfaceMaker::record_object never records "
                                 "get_destructor()); Destroy(o) is performed by a helper of the generated library")
     ctx.assumptions.append("python -string wrappers are compiled with a pre-included `using std::basic_string;` (C03: the "
